@@ -13,13 +13,21 @@ HInit == /\ Init /\ hist = <<>> /\ \A k \in Keys : k # "n1" => ttls[k] = [g \in 
 Op(o) == hist' = Append(hist, o)
 \* a whole lookup as one history step (G = 1: the micro-steps are deterministic)
 Lookup(k) ==
-  LET e == cache[k] IN
+  LET o == cache[k]
+      e == IF o = 0 THEN None ELSE objs[o]
+      fresh == [exp |-> now + MinOf(ttls[k][gen[k]]), gen |-> gen[k], f |-> now, min |-> MinOf(ttls[k][gen[k]])] IN
   /\ Len(hist) < MaxH
-  /\ IF Valid(e, now) THEN /\ Op([op |-> "resolve", k |-> k, kind |-> "ok", gen |-> e.gen, upq |-> FALSE]) /\ UNCHANGED cache
-     ELSE IF up THEN /\ cache' = [cache EXCEPT ![k] = [exp |-> now + MinOf(ttls[k][gen[k]]), gen |-> gen[k], f |-> now, min |-> MinOf(ttls[k][gen[k]])]]
-                     /\ Op([op |-> "resolve", k |-> k, kind |-> "ok", gen |-> gen[k], upq |-> TRUE])
-     ELSE /\ cache' = [cache EXCEPT ![k] = None] /\ Op([op |-> "resolve", k |-> k, kind |-> "err", gen |-> -1, upq |-> TRUE])
-  /\ UNCHANGED <<now, up, ttls, gen, wlock, pc, key, got, fetched, upq, missed, last>>
+  /\ IF Valid(e, now) THEN /\ Op([op |-> "resolve", k |-> k, kind |-> "ok", gen |-> e.gen, upq |-> FALSE]) /\ UNCHANGED <<nobj, objs, okey, olock, cache>>
+     ELSE IF up
+     THEN /\ Op([op |-> "resolve", k |-> k, kind |-> "ok", gen |-> gen[k], upq |-> TRUE])
+          /\ IF o # 0 THEN objs' = [objs EXCEPT ![o] = fresh] /\ UNCHANGED <<nobj, okey, olock, cache>>
+             ELSE /\ nobj' = nobj + 1 /\ cache' = [cache EXCEPT ![k] = nobj + 1]
+                  /\ objs' = [x \in 1..(nobj + 1) |-> IF x <= nobj THEN objs[x] ELSE fresh]
+                  /\ okey' = [x \in 1..(nobj + 1) |-> IF x <= nobj THEN okey[x] ELSE k]
+                  /\ olock' = [x \in 1..(nobj + 1) |-> IF x <= nobj THEN olock[x] ELSE 0]
+     ELSE /\ cache' = [cache EXCEPT ![k] = 0] /\ Op([op |-> "resolve", k |-> k, kind |-> "err", gen |-> -1, upq |-> TRUE])
+          /\ UNCHANGED <<nobj, objs, okey, olock>>
+  /\ UNCHANGED <<now, up, ttls, gen, pc, key, ent, got, fetched, upq, upqAt, hit, cancelled, last>>
 HNext == \/ \E k \in Keys : Lookup(k)
          \/ Len(hist) < MaxH /\ Advance /\ Op([op |-> "advance"])
          \/ \E k \in Keys : Len(hist) < MaxH /\ Change(k) /\ Op([op |-> "change", k |-> k])
